@@ -27,6 +27,14 @@
      enest     nesting ("((((", "[[[[", "if {if {")
      Recover   the REPL boundary (repl.EvalOne's recover + State.Reset): depth and scope
                back to top level, the guard failure becomes an ordinary result
+     alloc "library"  a library function sizing its result (regsub, join, sprintf, json, split..)
+     print / retn     a call captures what is printed while it runs (applyFunction swaps State.Out);
+               when it returns the capture is kept for the memo cache and copied into the caller's
+     enest1    one level of evaluator recursion inside a function body (block, literal, argument)
+     rnest     ast.Modify rewriting a nested body (registers, quote, macro expansion): host-level
+               recursion, one step per level of the source, not under the deadline
+     load / arm  repl.AutoLoad evaluating the saved state line by line, then State.SetContext arming
+               the deadline (timer): Cancel is enabled while timer = "on"
 
    What the code does differently from the design is not hidden in the actions but
    named: Dev is a set of deviation names.  With Dev = {} every property below holds
@@ -44,6 +52,15 @@
                               stack without passing the depth check of Eval
      "StackUnbudgeted"        the Go stack used by `call` is not charged to the memory
                               budget (depth limit and memory limit are independent)
+     "LibraryResultUnguarded" a library function (regsub, join, sprintf, json, ...) builds a result
+                              much larger than its arguments without asking MustBeOk first
+     "CapturedOutputUnbudgeted" what a call prints is captured per call (for the memo cache) and copied
+                              into the caller's capture when it returns; nothing charges the copies
+                              to the budget
+     "RewriteRevisits"        (not in the code; sabotage) the rewriting of a body (ast.Modify: registers,
+                              quote, macro expansion) walks a nested operand twice per level
+     "DeadlineNetOfLoad"      (not in the code; sabotage) the deadline is armed with what is left of
+                              MaxDuration after loading the saved state; nothing left = no deadline
      "SleepIgnoresContext"    (not in the code; kept as the sabotage of the liveness check)
      "NoResetOnRecover"       (not in the code; sabotage of the REPL-boundary property)
 
@@ -70,21 +87,30 @@ CONSTANTS Skeletons,   \* subset of AllSkeletons to explore
           NMax, TMax,  \* saturation of the node / tick counters
           SMax,        \* saturation of operand sizes
           K,           \* evaluator steps tolerated after Cancel, hostloop steps excluded
+          NestR,       \* levels of the nesting inside a rewritten body ("rewrite"); fewer than any depth limit
+          LoadSlow,    \* a saved state of at least this many lines takes longer to load than the deadline
           Dev,         \* set of deviation names switched on
           EmitOn       \* BOOLEAN: emit schedules (GEN)
 
 AllSkeletons == {"loop", "loopempty", "recurse", "mutual", "closures", "sconcat", "aconcat",
-                 "srepeat", "arepeat", "arepeatwrap", "range", "nest", "nestmid", "sleep"}
+                 "srepeat", "arepeat", "arepeatwrap", "range", "nest", "nestmid", "sleep",
+                 "libgrow", "output", "recnest", "rewrite", "autoload"}
 AllDev == {"StringConcatUnguarded", "RepeatSizeOverflow", "NestingUnguarded",
-           "StackUnbudgeted", "SleepIgnoresContext", "NoResetOnRecover"}
+           "StackUnbudgeted", "SleepIgnoresContext", "NoResetOnRecover",
+           "LibraryResultUnguarded", "CapturedOutputUnbudgeted", "RewriteRevisits", "DeadlineNetOfLoad"}
 
 ASSUME /\ Skeletons \subseteq AllSkeletons /\ Dev \subseteq AllDev
        /\ \A d \in MaxDepths : d \in Nat /\ d + 1 < StackCap
        /\ \A b \in Budgets : b \in Nat /\ b < Phys
        /\ NestN > StackCap   \* the nesting skeleton is deeper than the Go stack could take
        /\ NestM <= StackCap /\ \A d \in MaxDepths : d + 1 < NestM
+       /\ NestR \in Nat /\ NestR >= 2 /\ \A d \in MaxDepths : NestR <= d
+       /\ LoadSlow \in Nat /\ LoadSlow >= 1
 
 VARIABLES sk, maxDepth, budget,   \* the configuration, chosen in Init
+          par,                    \* the skeleton's size parameter, chosen in Init (Params): result size of the library
+                                  \* call, size of one print, lines of the saved state
+          timer,                  \* "on": the deadline can fire (Cancel enabled); "off": evaluation without a deadline
           pc, status, class,      \* control
           depth,                  \* State.depth
           scope,                  \* nesting of function environments (State.env)
@@ -99,7 +125,7 @@ VARIABLES sk, maxDepth, budget,   \* the configuration, chosen in Init
           hostAfter,              \* hostloop steps since Cancel
           ticksAfter,             \* ticks since Cancel
           used                    \* deviations exercised on this path
-vars == <<sk, maxDepth, budget, pc, status, class, depth, scope, gostack, nodes, ticks, cancelled,
+vars == <<sk, maxDepth, budget, par, timer, pc, status, class, depth, scope, gostack, nodes, ticks, cancelled,
           mem, size, granted, cnt, after, hostAfter, ticksAfter, used>>
 
 Min(a, b) == IF a < b THEN a ELSE b
@@ -109,7 +135,7 @@ Huge == Phys + 1   \* an operand that fits no budget and no machine
    Each instruction is a record; `g` on an alloc says which guard variant applies.      *)
 I(op)        == [op |-> op, to |-> 0, g |-> "", n |-> ""]
 J(op, to)    == [op |-> op, to |-> to, g |-> "", n |-> ""]
-A(g, n)      == [op |-> "alloc", to |-> 0, g |-> g, n |-> n]   \* n: "dbl" (2*size) | "huge"
+A(g, n)      == [op |-> "alloc", to |-> 0, g |-> g, n |-> n]   \* n: "dbl" (2*size) | "huge" | "par" (the result size chosen in Init)
 H(n)         == [op |-> "hostloop", to |-> 0, g |-> "", n |-> n]
 
 Prog(s) ==
@@ -126,15 +152,34 @@ Prog(s) ==
     [] s = "range"       -> << I("node"), A("always", "huge"), H("granted"), I("ret") >>      \* 0:(1<<40)
     [] s \in {"nest", "nestmid"} -> << I("pnest"), I("punnest"), I("enest"), I("eunnest"), I("ret") >>
     [] s = "sleep"       -> << I("node"), I("sleep"), I("ret") >>
+    \* len(regsub("a", s, s)), join(a, sep), sprintf("%1000000d"...), json(x), split, runes, base64: one library call
+    \* whose result is much larger than its arguments - around the budget ("half", "over") or beyond any ("huge")
+    [] s = "libgrow"     -> << I("node"), A("library", "par"), H("granted"), I("ret") >>
+    \* func f(n){if n==0{return 0}; println("x"*par); f(n-1)}; f(maxDepth): every level prints, every return copies
+    \* what was captured below into the caller's capture
+    [] s = "output"      -> << J("call", 2), I("tick"), I("print"), J("callif", 2), I("retn"), I("ret") >>
+    \* func f(n){vtick(); if true {f(n+1)}}; f(0): one more level of evaluator nesting in every call
+    [] s = "recnest"     -> << J("call", 2), I("tick"), I("enest1"), J("call", 2) >>
+    \* func f(n){-(-(-(n)))}; f(3): the nested body is rewritten (ast.Modify) before it is evaluated
+    [] s = "rewrite"     -> << I("pnest"), I("punnest"), I("rnest"), I("enest"), I("eunnest"), I("ret") >>
+    \* AutoLoad of a saved state of `par` lines, then SetContext(ctx, MaxDuration), then for true {vtick()}
+    [] s = "autoload"    -> << I("load"), I("arm"), I("node"), I("tick"), J("jmp", 3) >>
+
+\* the size parameter of a skeleton (chosen in Init)
+Params(s) == CASE s = "libgrow"  -> {"half", "over", "huge"}
+               [] s = "output"   -> {1, 2}
+               [] s = "autoload" -> {0, LoadSlow}
+               [] OTHER          -> {0}
 
 \* the state as a record, so that the step function can also be iterated inside one TLC
 \* evaluation (RunClass below predicts the outcome of the deterministic rest of a schedule)
-Cur == [sk |-> sk, maxDepth |-> maxDepth, budget |-> budget, pc |-> pc, status |-> status, class |-> class,
+Cur == [sk |-> sk, maxDepth |-> maxDepth, budget |-> budget, par |-> par, timer |-> timer, pc |-> pc, status |-> status, class |-> class,
         depth |-> depth, scope |-> scope, gostack |-> gostack, nodes |-> nodes, ticks |-> ticks,
         cancelled |-> cancelled, mem |-> mem, size |-> size, granted |-> granted, cnt |-> cnt,
         after |-> after, hostAfter |-> hostAfter, ticksAfter |-> ticksAfter, used |-> used]
 
-Levels(s) == IF s.sk = "nest" THEN NestN ELSE NestM
+Levels(s) == CASE s.sk = "nest" -> NestN [] s.sk = "rewrite" -> NestR [] OTHER -> NestM
+Pow2(n) == 2 ^ n
 Running(s) == s.status \in {"run", "unwind", "panic"}
 
 Fail(s, c)  == [s EXCEPT !.status = "unwind", !.class = c]       \* an error object bubbles up
@@ -156,6 +201,14 @@ Take(s, n) == IF s.mem + n > Phys THEN Die([s EXCEPT !.mem = Phys + 1], "oom")
 \* MustBeOk(n): refuse BEFORE allocating
 Guarded(s, n, cont) == IF s.mem + n > s.budget THEN Panic(s, "memrefused") ELSE cont
 
+\* Eval() entered for a function body: the depth check comes before anything else (before the context check of the body)
+DoCall(s, to) ==
+  IF s.depth > s.maxDepth THEN Panic(s, "maxdepth")
+  ELSE LET e == Push([s EXCEPT !.pc = to, !.depth = @ + 1, !.scope = @ + 1])
+       IN IF e.status = "dead" THEN e
+          ELSE IF "StackUnbudgeted" \in Dev THEN Use(Take(e, 1), "StackUnbudgeted")
+          ELSE Guarded(s, 1, Take(e, 1))       \* the frame is charged to the budget
+
 (* The evaluator's step function on a running state. *)
 StepF(s) ==
   LET ins == Prog(s.sk)[s.pc]
@@ -176,19 +229,54 @@ StepF(s) ==
     [] ins.op = "tick" -> CtxCheck(s, [nx EXCEPT !.nodes = Min(@ + 1, NMax), !.ticks = Min(@ + 1, TMax),
                                                !.ticksAfter = IF s.cancelled THEN Min(@ + 1, 1) ELSE @])
     [] ins.op = "jmp"  -> [s EXCEPT !.pc = ins.to]
-    [] ins.op = "call" ->
-         \* Eval(): the depth check comes before anything else (before the context check of the body)
-         IF s.depth > s.maxDepth THEN Panic(s, "maxdepth")
-         ELSE LET e == Push([s EXCEPT !.pc = ins.to, !.depth = @ + 1, !.scope = @ + 1])
-              IN IF e.status = "dead" THEN e
-                 ELSE IF "StackUnbudgeted" \in Dev THEN Use(Take(e, 1), "StackUnbudgeted")
-                 ELSE Guarded(s, 1, Take(e, 1))       \* the frame is charged to the budget
+    [] ins.op = "call" -> DoCall(s, ins.to)
+    [] ins.op = "callif" ->
+         \* the recursion of "output" ends by itself, at the depth limit (never beyond it)
+         IF s.depth < s.maxDepth THEN DoCall(s, ins.to) ELSE nx
+    [] ins.op = "print" ->
+         \* println("x"*par): the operand is built under the guard; the text lands in the capture of the current call
+         Guarded(s, s.par, [Take(nx, s.par) EXCEPT !.size = Min(@ + s.par, SMax)])
+    [] ins.op = "retn" ->
+         \* a call returns: what it captured (size) is kept for the memo cache and copied into the caller's capture
+         IF s.depth = 0 THEN nx
+         ELSE LET r  == [s EXCEPT !.depth = @ - 1, !.scope = IF @ > 0 THEN @ - 1 ELSE 0, !.gostack = IF @ > 0 THEN @ - 1 ELSE 0]
+                  ok == [Take(r, s.size) EXCEPT !.granted = s.size]
+              IN IF "CapturedOutputUnbudgeted" \in Dev THEN Use(ok, "CapturedOutputUnbudgeted")
+                 ELSE Guarded(s, s.size, ok)
+    [] ins.op = "enest1" ->
+         \* one level of evaluator nesting inside the body (if block, array literal, argument): by design it passes the
+         \* depth check like a call does
+         CtxCheck(s,
+           IF "NestingUnguarded" \in Dev THEN Use(Push([nx EXCEPT !.nodes = Min(@ + 1, NMax)]), "NestingUnguarded")
+           ELSE IF s.depth > s.maxDepth THEN Panic(s, "maxdepth")
+           ELSE Push([nx EXCEPT !.depth = @ + 1, !.nodes = Min(@ + 1, NMax)]))
+    [] ins.op = "rnest" ->
+         \* ast.Modify over the nested body: a host-level recursion (no context check); by design every level is visited
+         \* once, so the phase is bounded by the size of the source text
+         LET total == IF "RewriteRevisits" \in Dev THEN Min(Pow2(Levels(s)), SMax) ELSE Levels(s)
+         IN IF s.cnt >= total THEN [nx EXCEPT !.cnt = 0]
+            ELSE IF "RewriteRevisits" \in Dev THEN Use([s EXCEPT !.cnt = @ + 1], "RewriteRevisits")
+            ELSE [s EXCEPT !.cnt = @ + 1]
+    [] ins.op = "load" ->
+         \* repl.AutoLoad: one saved binding per step, evaluated before the deadline is armed; bounded by the file
+         IF s.cnt >= s.par THEN [nx EXCEPT !.cnt = 0]
+         ELSE [s EXCEPT !.cnt = @ + 1]
+    [] ins.op = "arm" ->
+         \* State.SetContext(ctx, MaxDuration): the deadline counts from here, whatever happened before
+         IF "DeadlineNetOfLoad" \in Dev /\ s.par >= LoadSlow
+         THEN Use([nx EXCEPT !.timer = "off"], "DeadlineNetOfLoad")   \* nothing left of MaxDuration: d <= 0 = unlimited
+         ELSE nx
     [] ins.op = "alloc" ->
-         LET n  == IF ins.n = "dbl" THEN Min(2 * s.size, SMax) ELSE Huge
+         LET n  == CASE ins.n = "dbl" -> Min(2 * s.size, SMax)
+                     [] ins.n = "par" /\ s.par = "half" -> s.budget \div 2   \* fits: granted or refused, never fatal
+                     [] ins.n = "par" /\ s.par = "over" -> s.budget          \* with what is live already: just too much
+                     [] OTHER -> Huge
              ok == [Take(nx, n) EXCEPT !.granted = n, !.size = n]
          IN (CASE ins.g = "always" -> Guarded(s, n, ok)
               [] ins.g = "string" -> IF "StringConcatUnguarded" \in Dev THEN Use(ok, "StringConcatUnguarded")
                                      ELSE Guarded(s, n, ok)
+              [] ins.g = "library" -> IF "LibraryResultUnguarded" \in Dev THEN Use(ok, "LibraryResultUnguarded")
+                                      ELSE Guarded(s, n, ok)
               [] ins.g = "product" ->
                    \* the size is a product computed in machine integers; when it wraps the guard sees 0
                    IF "RepeatSizeOverflow" \in Dev THEN Use([nx EXCEPT !.granted = 0, !.size = Huge], "RepeatSizeOverflow")
@@ -220,11 +308,13 @@ StepF(s) ==
     [] ins.op = "ret" -> [s EXCEPT !.status = "returned", !.class = "value"]
 
 \* after Cancel: count the evaluator's steps (iterations of a host loop are counted apart, in
-\* hostAfter; returning an error / flying a panic is not evaluating)
+\* hostAfter; loading a line of the saved state and visiting a level of a body being rewritten are
+\* bounded by the size of the file / the source text (SourceBound); returning an error / flying a
+\* panic is not evaluating)
 Step1(s) ==
   LET n == StepF(s) IN
   IF n = s THEN s
-  ELSE IF s.cancelled /\ s.status = "run" /\ ~(Prog(s.sk)[s.pc].op = "hostloop" /\ n.cnt = s.cnt + 1)
+  ELSE IF s.cancelled /\ s.status = "run" /\ ~(Prog(s.sk)[s.pc].op \in {"hostloop", "load", "rnest"} /\ n.cnt = s.cnt + 1)
   THEN [n EXCEPT !.after = Min(@ + 1, K + 1)]
   ELSE n
 
@@ -240,6 +330,7 @@ RunClass(s) == LET r == Run(s, Fuel) IN [class |-> r.class, status |-> r.status,
 \* --------------------------------------------------------------- the machine
 Init ==
   /\ sk \in Skeletons /\ maxDepth \in MaxDepths /\ budget \in Budgets
+  /\ par \in Params(sk) /\ timer = "on"
   /\ pc = 1 /\ status = "run" /\ class = "none"
   /\ depth = 0 /\ scope = 0 /\ gostack = 0 /\ nodes = 0 /\ ticks = 0 /\ cancelled = FALSE
   /\ mem = 1 /\ size = 1 /\ granted = 0 /\ cnt = 0 /\ after = 0 /\ hostAfter = 0 /\ ticksAfter = 0
@@ -250,9 +341,10 @@ Assign(n) ==
   /\ depth' = n.depth /\ scope' = n.scope /\ gostack' = n.gostack /\ nodes' = n.nodes /\ ticks' = n.ticks
   /\ cancelled' = n.cancelled /\ mem' = n.mem /\ size' = n.size /\ granted' = n.granted /\ cnt' = n.cnt
   /\ after' = n.after /\ hostAfter' = n.hostAfter /\ ticksAfter' = n.ticksAfter /\ used' = n.used
-  /\ UNCHANGED <<sk, maxDepth, budget>>
+  /\ timer' = n.timer
+  /\ UNCHANGED <<sk, maxDepth, budget, par>>
 
-Sched(k, pred) == [sk |-> sk, md |-> maxDepth, bud |-> budget, k |-> k, ksat |-> (ticks = TMax),
+Sched(k, pred) == [sk |-> sk, md |-> maxDepth, bud |-> budget, par |-> par, k |-> k, ksat |-> (ticks = TMax),
                    pc |-> pc, op |-> Prog(sk)[pc].op, st |-> status, depth |-> depth, size |-> size,
                    pred |-> pred.class, pstatus |-> pred.status, used |-> pred.used,
                    after |-> pred.after, hostafter |-> pred.hostAfter]
@@ -268,22 +360,23 @@ Step ==
           EmitLine(ToJson(Sched(-1, [class |-> n.class, status |-> n.status, used |-> n.used, after |-> 0, hostAfter |-> 0])))
 
 \* the context is cancelled / the deadline expires: possible at EVERY instant of a running evaluation
+\* for which a deadline is armed (timer = "on": always, by design)
 Cancel ==
-  /\ Running(Cur) /\ ~cancelled
+  /\ Running(Cur) /\ ~cancelled /\ timer = "on"
   /\ cancelled' = TRUE
-  /\ UNCHANGED <<sk, maxDepth, budget, pc, status, class, depth, scope, gostack, nodes, ticks, mem, size,
+  /\ UNCHANGED <<sk, maxDepth, budget, par, timer, pc, status, class, depth, scope, gostack, nodes, ticks, mem, size,
                  granted, cnt, after, hostAfter, ticksAfter, used>>
   /\ EmitOn => EmitLine(ToJson(Sched(ticks, RunClass([Cur EXCEPT !.cancelled = TRUE]))))
 
 \* The evaluator's step under the names of the mechanisms it stands for (the same transition
 \* relation as Step, split by the instruction about to execute; TLC's coverage shows each).
 OpNow    == IF status = "run" THEN Prog(sk)[pc].op ELSE status
-EvalNode == OpNow \in {"node", "tick", "sleep", "pnest", "enest"} /\ Step  \* context check first, then the node
-Enter    == OpNow = "call" /\ Step                                       \* Eval(): depth check, depth++ (GuardPanic "max depth")
-Leave    == OpNow \in {"unwind", "punnest", "eunnest"} /\ Step           \* depth--, frames popped
-Alloc    == OpNow \in {"alloc", "drop"} /\ Step                          \* MustBeOk(n) (GuardPanic "would exceed memory")
-HostLoop == OpNow = "hostloop" /\ Step                                   \* Go-level loop, no evaluator re-entry
-Control  == OpNow \in {"jmp", "ret"} /\ Step
+EvalNode == OpNow \in {"node", "tick", "sleep", "pnest", "enest", "enest1"} /\ Step  \* context check first, then the node
+Enter    == OpNow \in {"call", "callif"} /\ Step                          \* Eval(): depth check, depth++ (GuardPanic "max depth")
+Leave    == OpNow \in {"unwind", "punnest", "eunnest", "retn"} /\ Step   \* depth--, frames popped (retn: the capture is copied up)
+Alloc    == OpNow \in {"alloc", "drop", "print"} /\ Step                 \* MustBeOk(n) (GuardPanic "would exceed memory")
+HostLoop == OpNow \in {"hostloop", "rnest", "load"} /\ Step              \* Go-level loop, no evaluator re-entry
+Control  == OpNow \in {"jmp", "ret", "arm"} /\ Step
 Recover  == OpNow = "panic" /\ Step                                      \* REPL boundary: recover() + State.Reset()
 
 Next == EvalNode \/ Enter \/ Leave \/ Alloc \/ HostLoop \/ Control \/ Recover \/ Cancel
@@ -306,6 +399,9 @@ NoDeath == status # "dead"
 MemBound == mem <= budget
 \* a host-level loop only runs over what the guard granted
 HostLoopCovered == (Running(Cur) /\ Prog(sk)[pc].op = "hostloop") => size <= granted
+\* rewriting a body (registers, quote, macro expansion) visits every level of the source once: the phase is not
+\* under the deadline, it is bounded by the size of the source text
+SourceBound == (Running(Cur) /\ status = "run" /\ Prog(sk)[pc].op = "rnest") => cnt <= Levels(Cur)
 \* after Cancel: at most K further evaluator steps, no further user-visible effect,
 \* and a host loop in flight is bounded by the budget
 PromptStop == cancelled => (after <= K /\ ticksAfter = 0 /\ hostAfter <= budget)
@@ -313,7 +409,8 @@ PromptStop == cancelled => (after <= K /\ ticksAfter = 0 /\ hostAfter <= budget)
 BoundaryClean == status = "returned" => (depth = 0 /\ scope = 0 /\ gostack = 0)
 \* refusals are recoverable results, not deaths; a growth operator never returns a value
 \* for an operand that fits no budget
-RefuseHuge == (status = "returned" /\ sk \in {"srepeat", "arepeat", "arepeatwrap", "range"}) => class # "value"
+RefuseHuge == (status = "returned" /\ (sk \in {"srepeat", "arepeat", "arepeatwrap", "range"} \/ (sk = "libgrow" /\ par # "half")))
+                 => class # "value"
 
 \* with a deadline set, the evaluation returns
 Returns == <>(status \in {"returned", "dead"})
